@@ -520,6 +520,34 @@ def rule_null(ctx, rep):
                                     after = [d_ for d_ in ds if d_[1] not in only_err and c.bb in h.reachable(d_[1]) and d_[1] != c.bb]
                                     if in_err and all(d_[0] == "stmt" and d_[3][0] == "agg" and d_[3][1].get("variant") == "None" for d_ in in_err) and not after:
                                         good = True
+        if not good:
+            # the function hands the result back (`fn semantic_tokens_full(&self, uri) -> Option<SemanticTokensResult>`): None is what it returns
+            # on the Err arm, and every caller in the server sends what it got as the result of the response
+            for i in sorted(h.reachable(0)):
+                si = switch_info(h, i)
+                if not (si and si["kind"] == "disc" and si["subject"][0] == "call" and si["subject"][1].callee == LP + "LspProject::tokenize"):
+                    continue
+                for succ, labs in si["edges"].items():
+                    if labs != ["Err"]:
+                        continue
+                    others = set()
+                    for s2, l2 in si["edges"].items():
+                        if l2 != ["Err"]:
+                            others |= h.reachable(s2)
+                    only_err = h.reachable(succ) - others
+                    rets = [(i2, st) for i2, _, st in h.all_stmts() if st[0] == "=" and st[1] == [0, []]]
+                    err_rets = [st for i2, st in rets if i2 in only_err]
+                    if err_rets and all(st[2][0] == "agg" and isinstance(st[2][1], dict) and st[2][1].get("variant") == "None" for st in err_rets):
+                        callers = [(cb, c) for cb in ctx.prog.bodies.values() if norm(cb.id).startswith("ironplcc::lsp::") for c in cb.calls() if norm(c.callee or "") == norm(h.id)]
+                        sent = 0
+                        for cb, c in callers:
+                            for c2 in cb.calls():
+                                if c2.callee == "ironplcc::lsp::LspServer::send_response" and len(c2.args) > 2:
+                                    p2 = op_place(c2.args[2])
+                                    if p2 is not None and cb.root(p2)[0] == c.dest[0] and not cb.root(p2)[1]:
+                                        sent += 1
+                        if callers and sent == len(callers):
+                            good = True
         if good:
             r.ok("%s|Err => None result" % hname, "%s:%d" % (h.f["file"], h.f["line"]))
         else:
